@@ -192,7 +192,7 @@ Proof.
 Qed.
 
 (* push_token after pop: the popped token t is not in the state; weakL "with t in flight" *)
-Definition weak_with (orig : list item) (t : ptoken) (s : pstate) : Prop :=
+Definition weak_with (orig : list item) (t : prstoken) (s : pstate) : Prop :=
   (exists pre, orig = pre ++ ITok (tok_kind t) (tok_data t) (tok_index t) :: ps_items s) /\
   ps_cur s = None /\ ps_pending s = [] /\
   (no_text_dropped s -> st_done s ++ ne [tok_data t] ++ st_ahead s = ne (map item_data orig)).
